@@ -172,7 +172,7 @@ fn run(ctx: &Ctx, roundtrip: bool) {
     let inputs = if ctx.tier == Tier::Thorough && !lite {
         Inputs::All
     } else {
-        quick_inputs(ctx.seed, ctx.arg_u64("stride").unwrap_or(if lite { 2003 } else { 251 }), lite)
+        quick_inputs(ctx.seed, ctx.arg_u64("stride").unwrap_or(if lite { 2003 } else { 61 }), lite)
     };
     let total = inputs.len();
     let nt = TRANSFERS.len();
